@@ -224,25 +224,77 @@ Section RangeProofs.
     - subst p. cbn [rbind]. cbn. reflexivity.
   Qed.
 
+  (* an EMPTY NAL unit (length field 0) in front of further bytes, cenc: the byte looked at is the first byte of
+     what follows; whatever it is, nothing is protected and the clear run extends over the length field *)
+  Lemma pr_step_empty pre b t cs ce ssps :
+    sch = Cenc ->
+    lenN (pre ++ frame [] ++ b :: t) < 4294967296 ->
+    pr_step isvideo hdr sch (pre ++ frame [] ++ b :: t) (lenN pre) cs ce ssps =
+      Ok (lenN pre + 4, cs, lenN pre + 4, ssps).
+  Proof.
+    intros Hsch Hlen.
+    change (frame []) with (be_bytes4 0 ++ []) in *. rewrite app_nil_r in *.
+    set (sample := pre ++ be_bytes4 0 ++ b :: t) in *.
+    set (pos := lenN pre) in *.
+    assert (HL : lenN sample = pos + 4 + lenN (b :: t)).
+    { unfold sample. rewrite !lenN_app, be_bytes4_len. fold pos. lia. }
+    assert (Hb : 1 <= lenN (b :: t)) by (rewrite lenN_cons; lia).
+    assert (Hs2 : sample = (pre ++ be_bytes4 0) ++ [] ++ b :: t).
+    { unfold sample. rewrite <- !app_assoc. reflexivity. }
+    assert (Hs3 : sample = (pre ++ be_bytes4 0) ++ b :: t).
+    { unfold sample. rewrite <- !app_assoc. reflexivity. }
+    assert (Hpl : lenN (pre ++ be_bytes4 0) = pos + 4) by (rewrite lenN_app, be_bytes4_len; reflexivity).
+    unfold pr_step.
+    rewrite (u32_small (pos + 4)) by lia.
+    rewrite (slice_eq sample pre (be_bytes4 0) (b :: t) pos (pos + 4) eq_refl eq_refl)
+      by (rewrite be_bytes4_len; reflexivity).
+    cbn [rbind]. rewrite be_bytes4_be by lia. rewrite !N.add_0_r.
+    rewrite !(u32_small (pos + 4)) by lia.
+    assert (Hlt : (lenN sample <? pos + 4) = false) by (apply N.ltb_ge; lia).
+    rewrite Hlt.
+    rewrite (idx_eq sample _ b _ (pos + 4) Hs3) by (symmetry; exact Hpl).
+    cbn [rbind]. rewrite Hsch.
+    destruct (isvideo b).
+    - rewrite (slice_eq sample (pre ++ be_bytes4 0) [] (b :: t) (pos + 4) (pos + 4) Hs2)
+        by (rewrite ?Hpl, ?lenN_nil, ?N.add_0_r; reflexivity).
+      cbn [rbind]. change (112 <=? u32 (0 + 4)) with false. cbn. reflexivity.
+    - cbn. reflexivity.
+  Qed.
+
   Variable P : list N -> N.
   Variable Q : N -> Prop.
   Hypothesis HQ0 : Q 0.
+
+  (* layouts the theorems speak about: every non-empty NAL unit as `decides` says; an EMPTY NAL unit anywhere for
+     cenc, as the last NAL unit for every scheme *)
+  Fixpoint ok_layout (nalus : list (list N)) : Prop :=
+    match nalus with
+    | [] => True
+    | n :: rest =>
+        match n with
+        | [] => rest = [] \/ sch = Cenc
+        | _ => decides n (P n) /\ Q (P n)
+        end /\ ok_layout rest
+    end.
+
+  Lemma frames_cons_byte n rest : exists b t, frames (n :: rest) = b :: t.
+  Proof. cbn [frames flat_map]. unfold frame, be_bytes4. cbn [app]. eexists. eexists. reflexivity. Qed.
 
   Lemma pr_loop_wf : forall nalus fuel sample pre cs ssps M,
     sample = pre ++ frames nalus ->
     lenN sample < 4294967296 ->
     (length nalus < fuel)%nat ->
-    Forall (fun n => decides n (P n) /\ Q (P n)) nalus ->
+    ok_layout nalus ->
     cs <= lenN pre ->
     expand ssps ++ rep false (lenN pre - cs) = M ->
     Forall (entry_ok Q) ssps ->
-    exists r, pr_loop isvideo hdr sch fuel sample (lenN pre) cs (lenN pre) ssps = Ok r /\
+    exists r, pr_loop_g isvideo hdr sch true fuel sample (lenN pre) cs (lenN pre) ssps = Ok r /\
               expand r = M ++ spec_mask isvideo P nalus /\ Forall (entry_ok Q) r.
   Proof.
     induction nalus as [|n rest IH]; intros fuel sample pre cs ssps M Hs Hlen Hf Hd Hcs HM Hok.
-    - destruct fuel as [|f]; [inversion Hf|]. cbn [pr_loop].
+    - destruct fuel as [|f]; [inversion Hf|]. cbn [pr_loop_g].
       cbn [frames flat_map] in Hs. rewrite app_nil_r in Hs. subst sample.
-      rewrite u32_small by lia.
+      rewrite !u32_small by lia.
       assert (E : (lenN pre <? lenN pre - 4) = false) by (apply N.ltb_ge; lia).
       rewrite E. cbn [spec_mask flat_map]. rewrite app_nil_r.
       destruct (cs <? lenN pre) eqn:E2.
@@ -252,56 +304,96 @@ Section RangeProofs.
         rewrite He, rep_0, app_nil_r. exact HM.
       + apply N.ltb_ge in E2. exists ssps. split; [reflexivity|]. split; [|exact Hok].
         replace (lenN pre - cs) with 0 in HM by lia. rewrite rep_0, app_nil_r in HM. exact HM.
-    - destruct fuel as [|f]; [inversion Hf|]. cbn [pr_loop].
-      pose proof (Forall_inv Hd) as Hdn. pose proof (Forall_inv_tail Hd) as Hdr. cbv beta in Hdn.
-      destruct Hdn as [Hdn HQn].
-      pose proof (decides_le _ _ Hdn) as Hple.
-      cbn [frames flat_map] in *. fold (frames rest) in *. subst sample.
-      assert (HL : lenN (pre ++ frame n ++ frames rest) = lenN pre + 4 + lenN n + lenN (frames rest)).
-      { unfold frame. rewrite !lenN_app, be_bytes4_len. lia. }
-      assert (Hne : 1 <= lenN n).
-      { destruct n; [destruct Hdn|]. rewrite lenN_cons. lia. }
-      rewrite u32_small by lia.
-      assert (E : (lenN pre <? lenN (pre ++ frame n ++ frames rest) - 4) = true) by (apply N.ltb_lt; lia).
-      rewrite E. rewrite (pr_step_wf pre n (frames rest) (P n)) by assumption.
+    - destruct fuel as [|f]; [inversion Hf|]. cbn [pr_loop_g].
+      cbn [ok_layout] in Hd. destruct Hd as [Hdn Hdr].
       assert (Hpre' : lenN (pre ++ frame n) = lenN pre + 4 + lenN n).
       { unfold frame. rewrite !lenN_app, be_bytes4_len. lia. }
-      assert (Hmask0 : P n = 0 -> nalu_mask isvideo P n = rep false (4 + lenN n)).
-      { intros H0. unfold nalu_mask. rewrite H0, rep_0, app_nil_r, N.sub_0_r.
-        destruct n as [|b0 t]; [destruct Hdn|]. rewrite rep_add. destruct (isvideo b0); reflexivity. }
-      assert (Hmask1 : 0 < P n -> nalu_mask isvideo P n = rep false (4 + (lenN n - P n)) ++ rep true (P n)).
-      { intros H0. unfold nalu_mask. destruct n as [|b0 t]; [destruct Hdn|].
-        unfold decides in Hdn. destruct (isvideo b0); [|lia].
-        rewrite rep_add, <- app_assoc. reflexivity. }
-      destruct (0 <? P n) eqn:EP.
-      + apply N.ltb_lt in EP.
-        destruct (append_protect_range_spec Q ssps (lenN pre + 4 + lenN n - P n - cs) (P n) HQ0 HQn) as (r1 & Hr1 & He1 & Hc1).
-        rewrite Hr1. cbn [rbind]. rewrite <- Hpre'.
-        destruct (IH f (pre ++ frame n ++ frames rest) (pre ++ frame n) (lenN (pre ++ frame n)) r1
-                    (M ++ nalu_mask isvideo P n)) as (r & Hr & He & Hc).
-        * rewrite <- app_assoc. reflexivity.
-        * exact Hlen.
-        * cbn [length] in Hf. lia.
-        * exact Hdr.
-        * lia.
-        * rewrite N.sub_diag, rep_0, app_nil_r, He1, <- HM, (Hmask1 EP), <- !app_assoc.
-          f_equal. rewrite !app_assoc. f_equal. rewrite <- !rep_add. f_equal. lia.
-        * apply Hc1. exact Hok.
-        * exists r. split; [exact Hr|]. split; [|exact Hc].
-          rewrite He. cbn [spec_mask flat_map]. rewrite <- app_assoc. reflexivity.
-      + apply N.ltb_ge in EP. assert (EP0 : P n = 0) by lia.
-        rewrite <- Hpre'.
-        destruct (IH f (pre ++ frame n ++ frames rest) (pre ++ frame n) cs ssps
-                    (M ++ nalu_mask isvideo P n)) as (r & Hr & He & Hc).
-        * rewrite <- app_assoc. reflexivity.
-        * exact Hlen.
-        * cbn [length] in Hf. lia.
-        * exact Hdr.
-        * lia.
-        * rewrite <- HM, (Hmask0 EP0), <- !app_assoc. f_equal. rewrite <- rep_add. f_equal. lia.
-        * exact Hok.
-        * exists r. split; [exact Hr|]. split; [|exact Hc].
-          rewrite He. cbn [spec_mask flat_map]. rewrite <- app_assoc. reflexivity.
+      destruct n as [|b0 t0].
+      + (* empty NAL unit *)
+        destruct rest as [|n2 rest'].
+        * (* the last one: the loop ends in front of its length field, which is clear tail *)
+          cbn [frames flat_map] in Hs. rewrite app_nil_r in Hs.
+          assert (HL : lenN sample = lenN pre + 4) by (rewrite Hs, Hpre', lenN_nil; lia).
+          rewrite HL. rewrite !u32_small by lia.
+          assert (E : (lenN pre <? lenN pre + 4 - 4) = false) by (apply N.ltb_ge; lia).
+          rewrite E.
+          assert (E2 : (cs <? lenN pre + 4) = true) by (apply N.ltb_lt; lia).
+          rewrite E2. rewrite sub32_small by lia.
+          destruct (append_protect_range_spec Q ssps (lenN pre + 4 - cs) 0 HQ0 HQ0) as (r & Hr & He & Hc).
+          exists r. split; [exact Hr|]. split; [|apply Hc; exact Hok].
+          rewrite He, rep_0, app_nil_r, <- HM. cbn [spec_mask flat_map nalu_mask]. rewrite !app_nil_r.
+          change (nalu_mask isvideo P []) with (rep false 4 ++ []). rewrite app_nil_r.
+          rewrite <- app_assoc, <- rep_add. do 2 f_equal. lia.
+        * destruct Hdn as [Hdn | Hdn]; [discriminate|].
+          destruct (frames_cons_byte n2 rest') as (b & t & Hbt).
+          change (frames ([] :: n2 :: rest')) with (frame [] ++ frames (n2 :: rest')) in Hs.
+          rewrite Hbt in Hs. subst sample.
+          assert (HL : lenN (pre ++ frame [] ++ b :: t) = lenN pre + 4 + lenN (b :: t)).
+          { rewrite !lenN_app. change (lenN (frame [])) with 4. lia. }
+          assert (Hb : 1 <= lenN (b :: t)) by (rewrite lenN_cons; lia).
+          rewrite u32_small by lia.
+          assert (E : (lenN pre <? lenN (pre ++ frame [] ++ b :: t) - 4) = true) by (apply N.ltb_lt; lia).
+          rewrite E. rewrite (pr_step_empty pre b t cs (lenN pre) ssps Hdn Hlen). cbn [rbind].
+          replace (lenN pre + 4) with (lenN (pre ++ frame [])) by (rewrite Hpre'; rewrite lenN_nil; lia).
+          destruct (IH f (pre ++ frame [] ++ b :: t) (pre ++ frame []) cs ssps
+                      (M ++ nalu_mask isvideo P [])) as (r & Hr & He & Hc).
+          -- rewrite <- app_assoc, Hbt. reflexivity.
+          -- exact Hlen.
+          -- cbn [length] in Hf. cbn [length]. lia.
+          -- exact Hdr.
+          -- rewrite Hpre'. lia.
+          -- rewrite <- HM, Hpre', lenN_nil. change (nalu_mask isvideo P []) with (rep false 4 ++ []).
+             rewrite app_nil_r, <- !app_assoc, <- rep_add.
+             do 2 f_equal. lia.
+          -- exact Hok.
+          -- exists r. split; [exact Hr|]. split; [|exact Hc].
+             rewrite He. cbn [spec_mask flat_map]. rewrite <- app_assoc. reflexivity.
+      + set (n := b0 :: t0) in *.
+        destruct Hdn as [Hdn HQn].
+        pose proof (decides_le _ _ Hdn) as Hple.
+        cbn [frames flat_map] in *. fold (frames rest) in *. subst sample.
+        assert (HL : lenN (pre ++ frame n ++ frames rest) = lenN pre + 4 + lenN n + lenN (frames rest)).
+        { unfold frame. rewrite !lenN_app, be_bytes4_len. lia. }
+        assert (Hne : 1 <= lenN n) by (unfold n; rewrite lenN_cons; lia).
+        rewrite u32_small by lia.
+        assert (E : (lenN pre <? lenN (pre ++ frame n ++ frames rest) - 4) = true) by (apply N.ltb_lt; lia).
+        rewrite E. rewrite (pr_step_wf pre n (frames rest) (P n)) by assumption.
+        assert (Hmask0 : P n = 0 -> nalu_mask isvideo P n = rep false (4 + lenN n)).
+        { intros H0. unfold nalu_mask. rewrite H0, rep_0, app_nil_r, N.sub_0_r.
+          unfold n. fold n. rewrite rep_add. destruct (isvideo b0); reflexivity. }
+        assert (Hmask1 : 0 < P n -> nalu_mask isvideo P n = rep false (4 + (lenN n - P n)) ++ rep true (P n)).
+        { intros H0. unfold nalu_mask. unfold n at 1. fold n.
+          unfold decides in Hdn. unfold n at 1 in Hdn. destruct (isvideo b0); [|lia].
+          rewrite rep_add, <- app_assoc. reflexivity. }
+        destruct (0 <? P n) eqn:EP.
+        * apply N.ltb_lt in EP.
+          destruct (append_protect_range_spec Q ssps (lenN pre + 4 + lenN n - P n - cs) (P n) HQ0 HQn) as (r1 & Hr1 & He1 & Hc1).
+          rewrite Hr1. cbn [rbind]. rewrite <- Hpre'.
+          destruct (IH f (pre ++ frame n ++ frames rest) (pre ++ frame n) (lenN (pre ++ frame n)) r1
+                      (M ++ nalu_mask isvideo P n)) as (r & Hr & He & Hc).
+          -- rewrite <- app_assoc. reflexivity.
+          -- exact Hlen.
+          -- cbn [length] in Hf. lia.
+          -- exact Hdr.
+          -- lia.
+          -- rewrite N.sub_diag, rep_0, app_nil_r, He1, <- HM, (Hmask1 EP), <- !app_assoc.
+             f_equal. rewrite !app_assoc. f_equal. rewrite <- !rep_add. f_equal. lia.
+          -- apply Hc1. exact Hok.
+          -- exists r. split; [exact Hr|]. split; [|exact Hc].
+             rewrite He. cbn [spec_mask flat_map]. rewrite <- app_assoc. reflexivity.
+        * apply N.ltb_ge in EP. assert (EP0 : P n = 0) by lia.
+          rewrite <- Hpre'.
+          destruct (IH f (pre ++ frame n ++ frames rest) (pre ++ frame n) cs ssps
+                      (M ++ nalu_mask isvideo P n)) as (r & Hr & He & Hc).
+          -- rewrite <- app_assoc. reflexivity.
+          -- exact Hlen.
+          -- cbn [length] in Hf. lia.
+          -- exact Hdr.
+          -- lia.
+          -- rewrite <- HM, (Hmask0 EP0), <- !app_assoc. f_equal. rewrite <- rep_add. f_equal. lia.
+          -- exact Hok.
+          -- exists r. split; [exact Hr|]. split; [|exact Hc].
+             rewrite He. cbn [spec_mask flat_map]. rewrite <- app_assoc. reflexivity.
   Qed.
 
   Lemma frames_length nalus : (length nalus <= length (frames nalus))%nat.
@@ -314,11 +406,11 @@ Section RangeProofs.
   Lemma protect_ranges_wf nalus :
     nalus <> [] ->
     lenN (frames nalus) < 4294967296 ->
-    Forall (fun n => decides n (P n) /\ Q (P n)) nalus ->
-    exists r, protect_ranges isvideo hdr sch (frames nalus) = Ok r /\
+    ok_layout nalus ->
+    exists r, protect_ranges_r isvideo hdr sch (frames nalus) = Ok r /\
               expand r = spec_mask isvideo P nalus /\ Forall (entry_ok Q) r.
   Proof.
-    intros Hne Hlen Hd. unfold protect_ranges.
+    intros Hne Hlen Hd. unfold protect_ranges_r, protect_ranges_g.
     assert (H4 : (lenN (frames nalus) <? 4) = false).
     { apply N.ltb_ge. destruct nalus as [|n t]; [congruence|].
       cbn [frames flat_map]. unfold frame. rewrite !lenN_app, be_bytes4_len. lia. }
@@ -329,6 +421,13 @@ Section RangeProofs.
     destruct (pr_loop_wf nalus (S (length (frames nalus))) (frames nalus) [] 0 [] []
                 eq_refl Hlen Hfuel Hd H0 eq_refl (Forall_nil _)) as (r & Hr & He & Hc).
     exists r. split; [exact Hr|]. split; [exact He|exact Hc].
+  Qed.
+
+  Lemma ok_layout_of_forall nalus :
+    Forall (fun n => decides n (P n) /\ Q (P n)) nalus -> ok_layout nalus.
+  Proof.
+    induction 1 as [|n t Hn _ IH]; [exact I|]. cbn [ok_layout]. split; [|exact IH].
+    destruct n; [destruct Hn as [[] _]|exact Hn].
   Qed.
 End RangeProofs.
 
@@ -401,20 +500,28 @@ Proof.
   destruct (isvideo b0); reflexivity.
 Qed.
 
+Lemma ok_layout_cenc isvideo hdr nalus :
+  ok_layout isvideo hdr Cenc (p_cenc isvideo) (fun x => x mod 16 = 0) nalus.
+Proof.
+  induction nalus as [|n t IH]; [exact I|]. cbn [ok_layout]. split; [|exact IH].
+  destruct n as [|b0 t0]; [right; reflexivity|].
+  split; [apply decides_cenc; reflexivity|].
+  unfold p_cenc. destruct (first_is_video isvideo (b0 :: t0)); [|reflexivity].
+  unfold prot_cenc. destruct (112 <=? lenN (b0 :: t0) + 4); [apply N.mod_mul; discriminate|reflexivity].
+Qed.
+
+(* EVERY list of NAL units, empty ones (length field 0) included *)
 Lemma cenc_ranges_mask isvideo hdr nalus :
-  wf_nalus nalus = true ->
+  nalus <> [] ->
   lenN (frames nalus) < 4294967296 ->
-  exists r, protect_ranges isvideo hdr Cenc (frames nalus) = Ok r /\
+  exists r, protect_ranges_r isvideo hdr Cenc (frames nalus) = Ok r /\
             expand r = spec_mask isvideo (fun n => prot_cenc (lenN n)) nalus /\
             sumN (map (fun p => ss_clear p + ss_prot p) r) = lenN (frames nalus) /\
             Forall (fun p => ss_clear p < 65536 /\ ss_prot p mod 16 = 0) r.
 Proof.
-  intros Hwf Hlen. apply wf_nalus_forall in Hwf. destruct Hwf as [Hne Hall].
-  destruct (protect_ranges_wf isvideo hdr Cenc (p_cenc isvideo) (fun x => x mod 16 = 0) eq_refl nalus Hne Hlen)
-    as (r & Hr & He & Hc).
-  { apply Forall_forall. intros n Hn. split; [apply decides_cenc; apply Hall; exact Hn|].
-    unfold p_cenc. destruct (first_is_video isvideo n); [|reflexivity].
-    unfold prot_cenc. destruct (112 <=? lenN n + 4); [apply N.mod_mul; discriminate|reflexivity]. }
+  intros Hne Hlen.
+  destruct (protect_ranges_wf isvideo hdr Cenc (p_cenc isvideo) (fun x => x mod 16 = 0) eq_refl nalus Hne Hlen
+              (ok_layout_cenc isvideo hdr nalus)) as (r & Hr & He & Hc).
   exists r. split; [exact Hr|].
   assert (He' : expand r = spec_mask isvideo (fun n => prot_cenc (lenN n)) nalus).
   { rewrite He. apply spec_mask_ext. intros n _ Hv. unfold p_cenc. rewrite Hv. reflexivity. }
@@ -440,24 +547,111 @@ Qed.
 Definition p_cbcs (isvideo : N -> bool) (hs : list N -> N) (n : list N) : N :=
   if first_is_video isvideo n then lenN n - hs n else 0.
 
+(* cbcs layouts: non-empty NAL units, except that the LAST one may be empty (an empty NAL unit in front of further
+   bytes makes the code look at the first byte of what follows and hand an empty NAL unit to the slice header
+   parser: see cbcs_mid_empty_refused in C07CodecProofs.v) *)
+Fixpoint empty_only_last (nalus : list (list N)) : bool :=
+  match nalus with
+  | [] => true
+  | n :: rest => (nonempty n || match rest with [] => true | _ => false end) && empty_only_last rest
+  end.
+
+Definition wf_nalus_cbcs (nalus : list (list N)) : bool :=
+  match nalus with [] => false | _ => empty_only_last nalus end.
+
+Lemma wf_nalus_cbcs_of_wf nalus : wf_nalus nalus = true -> wf_nalus_cbcs nalus = true.
+Proof.
+  unfold wf_nalus, wf_nalus_cbcs. destruct nalus as [|n t]; [discriminate|].
+  generalize (n :: t). intros l. induction l as [|a l IH]; [reflexivity|].
+  cbn [forallb empty_only_last]. intros H. apply andb_prop in H. destruct H as [H1 H2].
+  rewrite H1, (IH H2). reflexivity.
+Qed.
+
 Lemma cbcs_ranges_mask isvideo hdr hs nalus :
-  wf_nalus nalus = true ->
+  wf_nalus_cbcs nalus = true ->
   lenN (frames nalus) < 4294967296 ->
   (forall n, In n nalus -> first_is_video isvideo n = true -> hdr n = Ok (hs n) /\ hs n <= lenN n) ->
-  exists r, protect_ranges isvideo hdr Cbcs (frames nalus) = Ok r /\
+  exists r, protect_ranges_r isvideo hdr Cbcs (frames nalus) = Ok r /\
             expand r = spec_mask isvideo (fun n => lenN n - hs n) nalus /\
             sumN (map (fun p => ss_clear p + ss_prot p) r) = lenN (frames nalus) /\
             Forall (fun p => ss_clear p < 65536) r.
 Proof.
-  intros Hwf Hlen Hh. apply wf_nalus_forall in Hwf. destruct Hwf as [Hne Hall].
+  intros Hwf Hlen Hh.
+  assert (Hne : nalus <> []) by (destruct nalus; [discriminate|discriminate]).
+  assert (Hwf' : empty_only_last nalus = true) by (destruct nalus; [discriminate|exact Hwf]).
   destruct (protect_ranges_wf isvideo hdr Cbcs (p_cbcs isvideo hs) (fun _ => True) I nalus Hne Hlen) as (r & Hr & He & Hc).
-  { apply Forall_forall. intros n Hn. split; [|exact I]. specialize (Hall n Hn). specialize (Hh n Hn).
-    destruct n as [|b0 t]; [discriminate|]. unfold decides, p_cbcs. cbn [first_is_video] in *.
-    destruct (isvideo b0); [|reflexivity].
-    destruct (Hh eq_refl) as [H1 H2]. exists (hs (b0 :: t)). split; [exact H1|]. split; [exact H2|reflexivity]. }
+  { clear Hne Hwf Hlen. induction nalus as [|n t IH]; [exact I|].
+    cbn [empty_only_last] in Hwf'. apply andb_prop in Hwf'. destruct Hwf' as [H1 H2].
+    cbn [ok_layout]. split.
+    - destruct n as [|b0 t0].
+      + left. cbn [nonempty orb] in H1. destruct t; [reflexivity|discriminate].
+      + split; [|exact I]. specialize (Hh (b0 :: t0) (or_introl eq_refl)).
+        unfold decides, p_cbcs. cbn [first_is_video] in *.
+        destruct (isvideo b0); [|reflexivity].
+        destruct (Hh eq_refl) as [H3 H4]. exists (hs (b0 :: t0)). split; [exact H3|]. split; [exact H4|reflexivity].
+    - apply IH; [|exact H2]. intros m Hm. apply Hh. right. exact Hm. }
   exists r. split; [exact Hr|].
   assert (He' : expand r = spec_mask isvideo (fun n => lenN n - hs n) nalus).
   { rewrite He. apply spec_mask_ext. intros n _ Hv. unfold p_cbcs. rewrite Hv. reflexivity. }
   split; [exact He'|]. split; [|eapply Forall_impl; [|exact Hc]; intros a [Ha _]; exact Ha].
   rewrite <- expand_lenN, He'. apply spec_mask_lenN. intros n _ _. lia.
 Qed.
+
+(* ---------------------------------------------------------------- at least one sub-sample entry, for EVERY sample *)
+Lemma apr_loop_nonempty fuel : forall ssps c p r, apr_loop fuel ssps c p = Ok r -> r <> [].
+Proof.
+  induction fuel as [|f IH]; intros ssps c p r H; [discriminate|].
+  cbn [apr_loop] in H. destruct (65536 <=? c).
+  - eapply IH. exact H.
+  - inversion H. intros E. symmetry in E. apply app_cons_not_nil in E. exact E.
+Qed.
+
+Lemma pr_step_nonempty isvideo hdr sch sample pos cs ce ssps pos' cs' ce' ssps' :
+  pr_step isvideo hdr sch sample pos cs ce ssps = Ok (pos', cs', ce', ssps') ->
+  ssps' <> [] \/ (cs' = cs /\ ssps' = ssps).
+Proof.
+  unfold pr_step. intros H.
+  destruct (slice sample pos (u32 (pos + 4))) as [lb| | |]; cbn [rbind] in H; try discriminate.
+  destruct (lenN sample <? u32 (u32 (pos + 4) + be lb)); [discriminate|].
+  destruct (idx sample (u32 (pos + 4))) as [b0| | |]; cbn [rbind] in H; try discriminate.
+  match type of H with (do cb <- ?X; _) = _ => destruct X as [[ce1 btp]| | |] end; cbn [rbind] in H; try discriminate.
+  destruct (0 <? btp).
+  - destruct (append_protect_range ssps (sub32 ce1 cs) btp) as [r1| | |] eqn:Ea; cbn [rbind] in H; try discriminate.
+    inversion H; subst. left. unfold append_protect_range in Ea. eapply apr_loop_nonempty. exact Ea.
+  - cbn [rbind] in H. inversion H; subst. right. split; reflexivity.
+Qed.
+
+Lemma pr_loop_nonempty isvideo hdr sch fuel : forall sample pos cs ce ssps r,
+  lenN sample < 4294967296 -> 4 <= lenN sample ->
+  ssps <> [] \/ cs = 0 ->
+  pr_loop_g isvideo hdr sch true fuel sample pos cs ce ssps = Ok r -> r <> [].
+Proof.
+  induction fuel as [|f IH]; intros sample pos cs ce ssps r Hlen H4 Hinv H; [discriminate|].
+  cbn [pr_loop_g] in H. destruct (pos <? u32 (lenN sample - 4)).
+  - destruct (pr_step isvideo hdr sch sample pos cs ce ssps) as [[[[pos' cs'] ce'] ssps']| | |] eqn:Es;
+      cbn [rbind] in H; try discriminate.
+    apply pr_step_nonempty in Es. eapply IH; [exact Hlen|exact H4| |exact H].
+    destruct Es as [Es | [-> ->]]; [left; exact Es|exact Hinv].
+  - rewrite u32_small in H by exact Hlen.
+    destruct (cs <? lenN sample) eqn:E.
+    + unfold append_protect_range in H. eapply apr_loop_nonempty. exact H.
+    + apply N.ltb_ge in E. destruct Hinv as [Hs | ->]; [inversion H; subst; exact Hs|lia].
+Qed.
+
+(* the repaired text never returns an empty list: every accepted video sample has a sub-sample entry, so the
+   samples of a video fragment are uniform for SaizBox.AddSampleInfo / SencBox.AddSample *)
+Lemma protect_ranges_r_nonempty isvideo hdr sch sample r :
+  lenN sample < 4294967296 ->
+  protect_ranges_r isvideo hdr sch sample = Ok r -> r <> [].
+Proof.
+  unfold protect_ranges_r, protect_ranges_g. intros Hlen H.
+  destruct (lenN sample <? 4) eqn:E; [discriminate|]. apply N.ltb_ge in E.
+  eapply pr_loop_nonempty; [exact Hlen|exact E| |exact H]. right. reflexivity.
+Qed.
+
+(* the text before the repair did: a 4-byte sample got no entry (and was then encrypted whole by CryptSampleCenc,
+   and saiz announced the default size 16 for senc entries of 18 and 24 bytes) *)
+Lemma protect_ranges_pinned_empty isvideo hdr sch :
+  protect_ranges isvideo hdr sch [0; 0; 0; 0] = Ok [] /\
+  protect_ranges_r isvideo hdr sch [0; 0; 0; 0] = Ok [mkSsp 4 0].
+Proof. split; reflexivity. Qed.
